@@ -427,7 +427,10 @@ class TxPipeline(Elaboratable):
         #
         # Bit-stuffing and NRZI.
         #
-        bitstuff = ResetInserter(da_reset_bitstuff)(TxBitstuffer())
+        # Reset the bit-stuffer together with the shifter, just before the end of the sync pattern: the
+        # shifter free-runs on whatever is on i_data_payload until then, and a stale run of ones would
+        # otherwise stall the pipeline (and insert a spurious 0) at the first data bit.
+        bitstuff = ResetInserter({"usb": da_reset_bitstuff | sp_reset_shifter})(TxBitstuffer())
         m.submodules.bitstuff = bitstuff
 
         m.submodules.nrzi = nrzi = TxNRZIEncoder()
